@@ -17,6 +17,9 @@ NOTES = {
  "C08-seed3": "not reachable by C08 (its workbooks are built, never lazily opened): caught by C11 as it stood (workbook-level insert while a referring sheet is unloaded: saved-content-equals-eager)",
  "C09-seed3": "missed by C09 and C03 as they stood (every formula was entered with set_formula; none was a shared-formula child as the reader leaves it); caught since the `loaded-child` space (masters of the whole quick grammar at C2, child C3 read back from a saved file, identity + 6 moves) was added",
  "C13-seed3": "missed by C13 as it stood (exit 0: every scenario ran ONE save; the change makes two saves with the same stem share one temporary file); caught since the `overlap` space was added (save A suspended at the hook points after it created its temporary file, save B to a sibling destination run to completion there: B reports success but its destination holds A's archive / is missing)",
+ "C16-seed3": "missed by C16 and C12 as they stood (exit 0: every lazily opened workbook of the configurations had its first sheet materialised - and with it the string table touched - before the savers started); caught since the configurations `2-lazy-clones-never-touched` and `2-lazy-savers-same-object-never-touched` were added (the deferred first access now happens inside the concurrent saves; all 252 interleavings each)",
+ "C12-seed3": "caught by C12 as it stood (foreign-string / removed-row histories) and by C07 (cells of a removed tail band survive)",
+ "C10-seed3": "caught by C10 as it stood (save-emission: a cell whose row the writer does not know)",
  "C09-seed2": "caught by C09 as it stood (translate clause: a reference leaving the grid followed by another reference) and by C03 (shared-edge family)",
 
  "C11-seed1": "missed by the check as it stood when the seed arrived (exit 0: no operation of the alphabet made a materialised sheet need a NEW numbered dependent part); caught after the edit operation also adds a comment (clause saved-content-equals-eager, the unloaded sheet's comments are replaced)",
